@@ -344,3 +344,118 @@ Example c06_offsets_bound_tight_nonvacuous :
                                [[([0], (Fin (-8), Fin (-4)))]]) = 256 /\
   option_map (fun bt => zmax_list (offsets (bt_bufs bt)) 0) (build_trie 254 0 dicts) = Some 256.
 Proof. cbv zeta. split; [vm_compute; reflexivity|]. split; vm_compute; reflexivity. Qed.
+
+(* ---------- source tie: the Python text of _lookup_calc_idx_log_probs / calc_idx_log_probs ----------------- *)
+
+(* PV.Gen.C06Src.lookup_body / calc_idx_body are the MiniPy terms harness/py2coq regenerates from
+   /repo/src/pydrobert/torch/_lm.py on every run (whole bodies of `_lookup_calc_idx_log_probs` and
+   `LookupLanguageModel.calc_idx_log_probs`); SrcRun.ext06_ops gives the torch calls the meaning of
+   PV.MiniTorch.OpsC06 (tensors = shape + row-major cells: unbounded ints, bools, exact rationals / -inf /
+   nan); SrcRun.ext06 adds the call of the other translated function.  `self` is a MiniPy dict of tensor
+   values and ints (SrcRun.method_vars).  TorchScript (`@script`) is not modelled: eager CPython text. *)
+From PV Require MiniPy.Syntax MiniPy.Interp MiniTorch.OpsC06 Gen.C06Src.
+From PV Require C06.SrcRun C06.TieRun C06.TieRunMain C06.TieSafe C06.TieSafeProofs C06.TieSrc C06.Tie.
+
+(* (1) interpreted source = tensor program, for EVERY tensor argument (any shape, any data) and all
+   integers: whenever the straight-line-plus-fold composition TieRun.lookup_fn of OpsC06 operations yields a
+   tensor, interpreting the translated body on those arguments returns exactly that tensor.  The loop
+   `for n in range(1, N)` is handled by an invariant over MiniPy.Lemmas.for_loop (TieRun.loop_run). *)
+Theorem c06_source_lookup_is_tensor_program : forall hist hidx offs idt lps lbs s V N G S out,
+  TieRun.lookup_fn hist hidx offs idt lps lbs s V N G S = Some out ->
+  exists st, Interp.run SrcRun.ext06_ops C06Src.lookup_body (SrcRun.vars06 hist hidx offs idt lps lbs s V N G S)
+             = Interp.Ok (SrcRun.enc6 out) st.
+Proof. exact TieRunMain.lookup_run. Qed.
+Print Assumptions c06_source_lookup_is_tensor_program.
+
+(* (2) the in-range validator: on buffers it accepts, every index the two-path descent of one (window,
+   candidate) forms lies inside offsets / ids / logps / logbs (TieSrc.lookup1_safe), for every window of N-1
+   tokens whose newest token is a root and every candidate in the vocabulary.  The harness evaluates
+   safe_okb on the implementation's ACTUAL buffers of every table whose queries it runs through the
+   interpreted source.  (TrieOK alone does not imply it: TrieOK is stated through the model's own reads.) *)
+Theorem c06_source_safe_sound : forall b sh, TieSafe.safe_okb b sh = true ->
+  lens_ok b sh = true /\ (1 <= order sh)%nat /\ nroots sh <= zlen (logps b) /\
+  Z.of_nat (maxdesc sh) <= vocab sh + 1 /\
+  forall hidx w v, (2 <= order sh)%nat -> length w = (order sh - 1)%nat ->
+    0 <= last w 0 < nroots sh -> 0 <= v < vocab sh -> TieSrc.lookup1_safe b sh hidx w v.
+Proof. exact TieSafeProofs.safe_okb_sound. Qed.
+Print Assumptions c06_source_safe_sound.
+
+(* (3) interpreted source = model, scalar index (what __call__ passes for an int / 0-dim / 1-element idx and
+   what calc_full_log_probs passes for every position): for ALL buffers the validator accepts, all
+   histories of vocabulary ids / sos, every B, every index i <= T (left-padding with sos when i < N - 1, the
+   N = 1 bypass included), interpreting the function returns the (B, V) tensor of exactly the rows
+   Model.lookup_batch computes (= batch_rows: per batch element the two-path descent lookup1) *)
+Theorem c06_source_lookup_is_model : forall b sh hist B i,
+  TieSafe.safe_okb b sh = true -> 1 <= vocab sh -> hist_ok sh hist B -> (i <= length hist)%nat ->
+  lookup_batch b sh hist B (Scalar (Z.of_nat i)) = Some (batch_rows b sh hist B (repeat i B)) /\
+  exists st, Interp.run SrcRun.ext06_ops C06Src.lookup_body (SrcRun.lookup_vars b sh hist B (Scalar (Z.of_nat i)))
+             = Interp.Ok (SrcRun.enc6 (SrcRun.rows_tensor B (Z.to_nat (vocab sh)) (batch_rows b sh hist B (repeat i B)))) st.
+Proof. exact Tie.source_lookup_scalar_is_model. Qed.
+Print Assumptions c06_source_lookup_is_model.
+
+(* the method LookupLanguageModel.calc_idx_log_probs(self, hist, prev, idx): reads the four buffers and five
+   constants off `self`, calls the function, returns (that tensor, prev) *)
+Theorem c06_source_method_is_model : forall b sh hist B i,
+  TieSafe.safe_okb b sh = true -> 1 <= vocab sh -> hist_ok sh hist B -> (i <= length hist)%nat ->
+  exists st, Interp.run SrcRun.ext06 C06Src.calc_idx_body (SrcRun.method_vars b sh hist B (Scalar (Z.of_nat i)))
+             = Interp.Ok (Syntax.VTuple
+                            [SrcRun.enc6 (SrcRun.rows_tensor B (Z.to_nat (vocab sh)) (batch_rows b sh hist B (repeat i B)));
+                             Syntax.VDict []]) st.
+Proof. exact Tie.source_method_scalar_is_model. Qed.
+Print Assumptions c06_source_method_is_model.
+
+(* the executable the harness runs (SrcRun.src_lookup_batch: interpret, decode the returned tensor) refines
+   the model, and the harness-side check is the model's check for EVERY scalar index, invalid ones included *)
+Theorem c06_source_lookup_refines_model : forall b sh hist B i,
+  TieSafe.safe_okb b sh = true -> 1 <= vocab sh -> hist_ok sh hist B -> (i <= length hist)%nat ->
+  SrcRun.src_lookup_batch b sh hist B (Scalar (Z.of_nat i)) = Some (lookup_batch b sh hist B (Scalar (Z.of_nat i))).
+Proof. exact Tie.source_scalar_refines_model. Qed.
+Print Assumptions c06_source_lookup_refines_model.
+
+Theorem c06_source_lookup_check_is_check : forall b sh hist B z impl,
+  TieSafe.safe_okb b sh = true -> 1 <= vocab sh -> hist_ok sh hist B ->
+  SrcRun.src_lookup_check b sh hist B (Scalar z) impl = out_eqb (forward b sh hist B (Some (Scalar z))) impl.
+Proof. exact Tie.source_scalar_check_is_check. Qed.
+Print Assumptions c06_source_lookup_check_is_check.
+
+(* (4) COMPOSED with c06_one_index_is_katz, purely about the interpreted source: on buffers that pass both
+   validators (the table's and the in-range one), calc_idx_log_probs as interpreted returns, for every
+   batch of histories and every index, the tensor of the Katz back-off values of the table on the
+   sos-padded histories *)
+Theorem c06_source_lookup_is_katz : forall b sh t hist B i,
+  trie_okb b sh (tmap sh t) = true -> tab_okb (vocab sh) (sos sh) t = true ->
+  TieSafe.safe_okb b sh = true -> 1 <= vocab sh -> hist_ok sh hist B -> (i <= length hist)%nat ->
+  exists st, Interp.run SrcRun.ext06 C06Src.calc_idx_body (SrcRun.method_vars b sh hist B (Scalar (Z.of_nat i)))
+             = Interp.Ok (Syntax.VTuple
+                            [SrcRun.enc6 (SrcRun.rows_tensor B (Z.to_nat (vocab sh))
+                                            (spec_at t (order sh) (vocab sh) (sos sh) hist B (repeat i B)));
+                             Syntax.VDict []]) st.
+Proof. exact Tie.source_scalar_is_katz. Qed.
+Print Assumptions c06_source_lookup_is_katz.
+
+(* ... and with c06_build_trie_ok / c06_build_then_one_index_is_katz: for EVERY well-formed table, on the
+   buffers the model of _build_trie returns, the interpreted source returns the Katz back-off values of the
+   caller's table.  PARTIAL in one respect: that the built buffers pass the in-range validator is a premise
+   here (checked per run on the implementation's actual buffers), not yet derived from build_trie. *)
+Theorem c06_source_built_lookup_is_katz_partial : forall V s dicts bt hist B i,
+  wf_dicts V s dicts = true -> build_trie V s dicts = Some bt ->
+  TieSafe.safe_okb (bt_bufs bt) (built_shape V s bt) = true ->
+  hist_ok (built_shape V s bt) hist B -> (i <= length hist)%nat ->
+  exists st, Interp.run SrcRun.ext06 C06Src.calc_idx_body
+               (SrcRun.method_vars (bt_bufs bt) (built_shape V s bt) hist B (Scalar (Z.of_nat i)))
+             = Interp.Ok (Syntax.VTuple
+                            [SrcRun.enc6 (SrcRun.rows_tensor B (Z.to_nat V)
+                                            (spec_at (table_of dicts) (length dicts) V s hist B (repeat i B)));
+                             Syntax.VDict []]) st.
+Proof. exact Tie.source_built_scalar_is_katz. Qed.
+Print Assumptions c06_source_built_lookup_is_katz_partial.
+
+(* the example buffers of c06_nonvacuous pass the in-range validator, and the interpreted source answers a
+   scalar and a per-element index query on them as the model does *)
+Example c06_source_nonvacuous :
+  TieSafe.safe_okb ex_bufs ex_sh = true /\
+  SrcRun.src_lookup_check ex_bufs ex_sh [[0; 1]; [1; 2]; [1; 0]] 2 (Scalar 2)
+    (Some (AtIdx [[Fin (-11); Fin (-12); NInf]; [Fin (-24); Fin (-16); NInf]])) = true /\
+  SrcRun.src_lookup_check ex_bufs ex_sh [[0; 1]; [1; 2]; [1; 0]] 2 (Vec [1; 3])
+    (Some (AtIdx [[Fin (-12); Fin (-4); NInf]; [Fin (-12); Fin (-2); NInf]])) = true.
+Proof. split; [vm_compute; reflexivity|]. split; vm_compute; reflexivity. Qed.
